@@ -70,7 +70,7 @@ func (s set56) norm() map[string][]iv {
 			if v.e < v.s {
 				continue
 			}
-			if len(m) > 0 && v.s <= m[len(m)-1].e+1 {
+			if len(m) > 0 && v.s-1 <= m[len(m)-1].e { // (not e+1: e may be the largest int64)
 				if v.e > m[len(m)-1].e {
 					m[len(m)-1].e = v.e
 				}
@@ -186,6 +186,15 @@ func randCanonSet(r *RNG, wide bool) set56 {
 				}
 				l = append(l, iv{cur, e})
 				cur = e + 2 + int64(r.Intn(4))
+			}
+			// the top of the domain (quantifier: sequence numbers 1..2^63-1): a last interval that ends at, or just
+			// below, the largest int64 — its exclusive end does not fit a signed 64-bit field
+			if r.Chance(1, 5) {
+				top := int64(1<<63 - 1 - uint64(r.Intn(3)))
+				lo := top - int64(r.Pick(0, 0, 1, 5, 1<<20))
+				if len(l) == 0 || l[len(l)-1].e+1 < lo {
+					l = append(l, iv{lo, top})
+				}
 			}
 			if len(l) > 0 {
 				s[sid] = l
